@@ -392,10 +392,15 @@ def run_check(prop, tier, root_seed):
         if kind == "ok":
             a = {k: v for k, v in agg["digests"].items() if int(k) < 8}
             b = out["digests"]
-            determinism = {"seeds": len(b), "ok": all(
-                a.get(k) == v for k, v in b.items()) and len(a) >= len(b),
+            # (digests of a chunk whose worker crashed are not available:
+            # compare the seeds both runs have)
+            common = sorted(set(a) & set(b))
+            determinism = {"seeds": len(common), "ok": all(
+                a[k] == b[k] for k in common) if common else None,
                 "hashseeds": ["0", "1"]}
-            if not determinism["ok"]:
+            if determinism["ok"] is None:
+                determinism["note"] = "no common seeds (worker crash)"
+            if determinism["ok"] is False:
                 harness_errors.append(
                     "determinism self-test failed: %r vs %r" % (a, b))
         elif kind == "harness":
